@@ -130,8 +130,8 @@ func copyTree(src, dst string) error {
 // ---------------------------------------------------------------- driver build
 
 type Driver struct {
-	Dir string // directory holding the driver sources (tdir of the contract)
-	Bin string
+	Dir    string // directory holding the driver sources (tdir of the contract)
+	Bin    string
 	Bins   map[string]string // variant -> binary ("", "trimpath", "deep", "deep-trimpath")
 	GoJSON map[string]string // json.Marshal text of the named Go values, as the driver reports them
 	Note   string
